@@ -106,12 +106,22 @@ func (vc *VC) emitVariant(o *Obl, dir string, idx int, variant int) (string, int
 	}
 	// facts (asserts) are included when they share a symbol with the cone; iterate to a fixpoint
 	factSyms := make([]map[string]bool, len(vc.asserts))
+	empty := map[string]bool{}
 	for i, a := range vc.asserts {
-		m := map[string]bool{}
-		if !(i < len(vc.assertAt) && (late(vc.assertAt[i]) || (inCut(vc.assertAt[i]) && hasQuant(a)))) {
-			symbols(a, m)
+		if i < len(vc.assertAt) && (late(vc.assertAt[i]) || (inCut(vc.assertAt[i]) && hasQuant(a))) {
+			factSyms[i] = empty
+			continue
 		}
-		factSyms[i] = m
+		// the symbols of a fact do not change between obligations: computed once per function
+		for len(vc.assertSymsCache) <= i {
+			vc.assertSymsCache = append(vc.assertSymsCache, nil)
+		}
+		if vc.assertSymsCache[i] == nil {
+			m := map[string]bool{}
+			symbols(a, m)
+			vc.assertSymsCache[i] = m
+		}
+		factSyms[i] = vc.assertSymsCache[i]
 	}
 	declared := map[string]bool{}
 	isConstSym := map[string]bool{}
